@@ -295,11 +295,11 @@ fn sections(cfg: &Cfg) -> Vec<(Sect, u64)> {
     let u = all_unary(3).len() as u64;
     let q = cfg.tier == Tier::Quick;
     vec![
-        (Sect::Singles, nn * u * if q { 5 } else { ALL_CLASSES.len() as u64 * 2 }),
+        (Sect::Singles, nn * u * if q { 5 } else { ALL_CLASSES.len() as u64 }),
         (Sect::Warm, nn * u * if q { 2 } else { 6 }),
         (Sect::Nothing, (u + 6) * if q { 4 } else { 40 }),
         (Sect::Ma, nn * 8 * if q { 2 } else { 12 }),
-        (Sect::Chains, if q { 2500 } else { 200_000 }),
+        (Sect::Chains, if q { 2500 } else { 80_000 }),
         (Sect::Long, u + 8),
     ]
 }
